@@ -190,6 +190,10 @@ var revOps = []Op{{"RegConn", "bd"}, {"DropConn", "bd"}, {"Rev", "2"}, {"Rev", "
 // revOps2 adds a replica bd2 of bd that stays on revision 1.
 var revOps2 = append(append([]Op{}, revOps...), Op{"RegConn", "bd2"}, Op{"DropConn", "bd2"})
 
+// halfOps: bh implements (and advertises) only one of the two services its
+// proto file declares; bd2 implements both.
+var halfOps = []Op{{"RegConn", "bh"}, {"DropConn", "bh"}, {"RegConn", "bd2"}, {"DropConn", "bd2"}}
+
 // killOps: the back-end bt goes down while registered.
 var killOps = []Op{{"RegConn", "bt"}, {"DropConn", "bt"}, {"Kill", "bt"}}
 
@@ -198,7 +202,7 @@ var killOps = []Op{{"RegConn", "bt"}, {"DropConn", "bt"}, {"Kill", "bt"}}
 // advertised both services must be served.
 var listOps = []Op{{"RegConn", "bd"}, {"DropConn", "bd"}, {"List", "d1"}, {"List", "all"}, {"Rev", "2"}}
 
-var extOps = append(append(append([]Op{{"List", "d1"}, {"List", "all"}}, revOps2...), allOps...), Op{"RegConn", "b3x"}, Op{"DropConn", "b3x"}, Op{"RegConn", "b4"}, Op{"DropConn", "b4"})
+var extOps = append(append(append([]Op{{"List", "d1"}, {"List", "all"}, {"RegConn", "bh"}, {"DropConn", "bh"}}, revOps2...), allOps...), Op{"RegConn", "b3x"}, Op{"DropConn", "b3x"}, Op{"RegConn", "b4"}, Op{"DropConn", "b4"})
 
 func randomHistory(rng *rand.Rand, minLen, maxLen int) History {
 	n := minLen + rng.Intn(maxLen-minLen+1)
@@ -326,6 +330,15 @@ func RunC11(r *mon.Run) {
 		total += len(keep)
 		outs := g.runAll(keep, Draws)
 		for i, h := range keep {
+			g.account(h, outs[i])
+			g.attribute(h, outs[i], Draws)
+		}
+	}
+	for L := 1; L <= 4; L++ {
+		hs := enumerate(halfOps, L)
+		total += len(hs)
+		outs := g.runAll(hs, Draws)
+		for i, h := range hs {
 			g.account(h, outs[i])
 			g.attribute(h, outs[i], Draws)
 		}
